@@ -2,3 +2,62 @@
 use super::*;
 
 include!(concat!(env!("AUTOSAR_DATA_VERIF_DIR"), "/harness/vk.rs"));
+
+// ---------------------------------------------------------------------------------------------------------
+// native replay bodies for properties decided by engine E2 (MIR symbolic executor)
+// ---------------------------------------------------------------------------------------------------------
+#[cfg(not(kani))]
+fn replay_value() -> CharacterData {
+    match vk::any_u8() {
+        0 => {
+            let i = vk::any_u16();
+            assert!(i < 2810, "VK_REPLAY_SHAPE");
+            // SAFETY: EnumItem is repr(u16) with contiguous discriminants 0..table size
+            CharacterData::Enum(unsafe { core::mem::transmute::<u16, EnumItem>(i) })
+        }
+        1 => {
+            let len = vk::any_usize();
+            let mut v = std::vec::Vec::new();
+            for _ in 0..len {
+                v.push(vk::any_u8());
+            }
+            CharacterData::String(String::from_utf8(v).expect("VK_REPLAY_SHAPE"))
+        }
+        2 => CharacterData::UnsignedInteger(vk::any_u64()),
+        _ => CharacterData::Float(f64::from_bits(vk::any_u64())),
+    }
+}
+
+// C14: the comparison used by sort is a total order consistent with ==
+#[cfg(not(kani))]
+pub fn n_c14_value_order() {
+    use std::cmp::Ordering::*;
+    let with_attr = vk::any_bool();
+    let a = replay_value();
+    let b = replay_value();
+    let c = replay_value();
+    let (ab, ba, bc, ac, aa, same);
+    if with_attr {
+        let mut names = std::vec::Vec::new();
+        for _ in 0..3 {
+            let i = vk::any_u16();
+            assert!(i < 101, "VK_REPLAY_SHAPE");
+            names.push(unsafe { core::mem::transmute::<u16, crate::AttributeName>(i) });
+        }
+        let x = crate::Attribute { attrname: names[0], content: a };
+        let y = crate::Attribute { attrname: names[1], content: b };
+        let z = crate::Attribute { attrname: names[2], content: c };
+        ab = x.cmp(&y); ba = y.cmp(&x); bc = y.cmp(&z); ac = x.cmp(&z); aa = x.cmp(&x); same = x == y;
+    } else {
+        ab = a.cmp(&b); ba = b.cmp(&a); bc = b.cmp(&c); ac = a.cmp(&c); aa = a.cmp(&a); same = a == b;
+    }
+    vk_check!(aa == Equal, "cmp(a, a) != Equal");
+    vk_check!(ba == ab.reverse(), "comparison is not antisymmetric");
+    if ab != Greater && bc != Greater {
+        vk_check!(ac != Greater, "comparison is not transitive");
+        if ab == Less || bc == Less {
+            vk_check!(ac == Less, "comparison is not transitive");
+        }
+    }
+    vk_check!((ab == Equal) == same, "cmp == Equal is not the same as ==");
+}
